@@ -545,7 +545,8 @@ def r7(prog, rep):
             for c in "RZ":
                 if d in (K("intersect.%s - second_intersect.%s" % (c, c)), K("second_intersect.%s - intersect.%s" % (c, c))):
                     seen.add(c)
-        return seen == {"R", "Z"}
+        # a proximity test of the right form on the wrong quantities is a known (wrong) condition
+        return True if seen == {"R", "Z"} else "bad"
 
     def classify(c):
         if isinstance(c, str):
@@ -561,7 +562,10 @@ def r7(prog, rep):
         k = count_above(c)
         if k is not None:
             return ("le%d" if neg else "gt%d") % k
-        if near(c):
+        nr = near(c)
+        if nr == "bad":
+            return "proximity-of-other-quantities"
+        if nr:
             return "far" if neg else "near"
         return "?" + t[:40]
 
